@@ -561,15 +561,8 @@ Proof.
   split; intros H j Hj; specialize (H j Hj); rewrite Hocc in *; exact H.
 Qed.
 
-Lemma walk_len_seg d l : forall x from,
-  walk_len d from (x :: l) = d from x + seg_len d (x :: l) + d (last (x :: l) from) 0%nat.
-Proof.
-  induction l as [|y l IH]; intros x from; [simpl; lia|].
-  change (walk_len d from (x :: y :: l)) with (d from x + walk_len d x (y :: l)).
-  change (seg_len d (x :: y :: l)) with (d x y + seg_len d (y :: l)).
-  rewrite IH. change (last (x :: y :: l) from) with (last (y :: l) from).
-  rewrite (last_default_irrel l y x from). lia.
-Qed.
+Lemma op_walk_walk_len d l : forall from, op_walk d from l = walk_len d from l.
+Proof. induction l as [|x l IH]; intros from; simpl; [reflexivity | rewrite IH; reflexivity]. Qed.
 
 (* in exact arithmetic every column of the checker's threshold is the original limit plus the tolerance *)
 Lemma op_thr_exact i j : op_thr exact i j = maxlen i + otol i.
@@ -578,9 +571,10 @@ Proof. unfold op_thr, op_maxl. rewrite !rnd_exact. lia. Qed.
 Lemma op_checker_unfold i acts :
   op_checker exact i acts = true <->
   (forall j, (1 <= j)%nat -> (occ j acts <= 1)%nat) /\ (forall a, In a acts -> (a <= op_n i)%nat) /\
-  cyc_len (odfun i) acts <= maxlen i + otol i.
+  cyclic_len (odfun i) acts <= maxlen i + otol i.
 Proof.
-  unfold op_checker, op_checker_m. rewrite !andb_true_iff, adj_ok_iff, !forallb_forall. split.
+  unfold op_checker, op_checker_m, op_tour_len. rewrite op_walk_walk_len. fold (cyclic_len (odfun i) acts).
+  rewrite !andb_true_iff, adj_ok_iff, !forallb_forall. split.
   - intros [[H1 H2] H3]. repeat split; auto.
     + intros a Ha. apply Nat.leb_le. apply H2. exact Ha.
     + specialize (H3 0%nat ltac:(apply in_seq; lia)). rewrite op_thr_exact in H3. lia.
@@ -589,48 +583,34 @@ Proof.
     + intros j _. rewrite op_thr_exact. lia.
 Qed.
 
-(* the checker's length of an action list that ends at the depot is the length of the closed walk from the depot *)
-Lemma cyc_len_total i acts :
-  odfun i 0%nat 0%nat = 0 -> acts <> [] -> last acts 0%nat = 0%nat -> cyc_len (odfun i) acts = total_len (odfun i) acts.
-Proof.
-  intros H0 Hne Hl. rewrite <- cyclic_len_is_total_len by exact H0. unfold cyclic_len.
-  destruct acts as [|x l]; [congruence|]. rewrite walk_len_seg. unfold cyc_len.
-  rewrite Hl, H0. lia.
-Qed.
-
-(* for action lists that end at the depot the checker decides the specification, relaxed by exactly its tolerance *)
+(* For EVERY action list -- ending at the depot or not, passing through the depot or not -- the checker decides the
+   specification relaxed by exactly its tolerance.  (Full strength since the repair 728e3da; the former restriction to
+   lists that end at the depot and its refutation witness are recorded as fixed in known_findings.json.) *)
 Theorem op_checker_iff i acts :
-  op_wf i -> acts <> [] -> last acts 0%nat = 0%nat ->
+  op_wf i ->
   (op_checker exact i acts = true <->
    (forall j, (1 <= j)%nat -> (occ j acts <= 1)%nat) /\ (forall a, In a acts -> (a <= op_n i)%nat) /\
    total_len (odfun i) acts <= maxlen i + otol i).
 Proof.
-  intros (_ & _ & H0) Hne Hl. rewrite op_checker_unfold, (cyc_len_total i acts H0 Hne Hl). tauto.
+  intros (_ & _ & H0). rewrite op_checker_unfold, (cyclic_len_is_total_len _ acts H0). tauto.
 Qed.
 
-(* completeness for ANY feasible action list, also one that never returns to the depot, given the one instance of
-   the triangle inequality that compares the checker's closing leg last -> first with the detour over the depot *)
 Theorem op_checker_complete i acts :
-  op_wf i -> 0 <= otol i -> op_feasible i acts ->
-  odfun i (last acts 0%nat) (hd 0%nat acts) <= odfun i (last acts 0%nat) 0%nat + odfun i 0%nat (hd 0%nat acts) ->
-  op_checker exact i acts = true.
+  op_wf i -> 0 <= otol i -> op_feasible i acts -> op_checker exact i acts = true.
 Proof.
-  intros (Hm & _ & H0) Htol (Hocc & Hrng & Hlen) Htri. apply op_checker_unfold. repeat split; auto.
-  rewrite <- cyclic_len_is_total_len in Hlen by exact H0. unfold cyclic_len in Hlen.
-  destruct acts as [|x l]; [cbn; lia|]. rewrite walk_len_seg in Hlen. unfold cyc_len. cbn [hd] in Htri. lia.
+  intros Hwf Htol (Hocc & Hrng & Hlen). apply (op_checker_iff i acts Hwf). repeat split; auto. lia.
 Qed.
 
-Corollary op_checker_complete_closed i acts :
-  op_wf i -> 0 <= otol i -> op_feasible i acts -> last acts 0%nat = 0%nat -> op_checker exact i acts = true.
-Proof.
-  intros Hwf Htol Hf Hl. apply op_checker_complete; auto. rewrite Hl. destruct Hwf as (_ & _ & H0). rewrite H0. lia.
-Qed.
+(* in particular every mask-made action list (finished or not, padded or not) is accepted *)
+Corollary op_checker_accepts_mask_made i acts :
+  op_wf i -> 0 <= otol i -> adm (E:=E) i acts = true -> op_checker exact i acts = true.
+Proof. intros Hwf Htol Hadm. apply op_checker_complete; auto. apply op_prefix_feasible; assumption. Qed.
 
 Corollary op_checker_sound i acts :
-  op_wf i -> acts <> [] -> last acts 0%nat = 0%nat -> op_checker exact i acts = true ->
+  op_wf i -> op_checker exact i acts = true ->
   (forall j, (1 <= j)%nat -> (occ j acts <= 1)%nat) /\ (forall a, In a acts -> (a <= op_n i)%nat) /\
   total_len (odfun i) acts <= maxlen i + otol i.
-Proof. intros Hwf Hne Hl Hc. apply (op_checker_iff i acts Hwf Hne Hl). exact Hc. Qed.
+Proof. intros Hwf Hc. apply (op_checker_iff i acts Hwf). exact Hc. Qed.
 
 Corollary op_checker_rejects_duplicate i acts j :
   (1 <= j)%nat -> (2 <= occ j acts)%nat -> op_checker exact i acts = false.
@@ -643,20 +623,8 @@ Proof.
   intros Ha Hn. apply not_true_iff_false. intros Hc. apply op_checker_unfold in Hc as (_ & Hrng & _). specialize (Hrng a Ha). lia.
 Qed.
 Corollary op_checker_rejects_overlength i acts :
-  op_wf i -> acts <> [] -> last acts 0%nat = 0%nat -> maxlen i + otol i < total_len (odfun i) acts ->
-  op_checker exact i acts = false.
+  op_wf i -> maxlen i + otol i < total_len (odfun i) acts -> op_checker exact i acts = false.
 Proof.
-  intros Hwf Hne Hl Hlen. apply not_true_iff_false. intros Hc.
-  apply (op_checker_iff i acts Hwf Hne Hl) in Hc as (_ & _ & H). lia.
-Qed.
-
-(* For an action list that does NOT end at the depot the checker measures the cycle through the listed nodes only
-   and ignores both depot legs: it accepts over-length tours.  Witness: depot at distance 10 from the single
-   customer, limit 5, action list [1]: the tour depot -> 1 -> depot has length 20, the checker computes 0. *)
-Theorem op_checker_noreturn_refuted :
-  exists i acts, op_wf i /\ 0 <= otol i /\ op_checker exact i acts = true /\
-                 maxlen i + otol i < total_len (odfun i) acts.
-Proof.
-  exists {| prz := [1]; maxlen := 5; eps := 0; odist := [[0; 10]; [10; 0]]; otol := 0 |}, [1%nat].
-  vm_compute. repeat split; congruence.
+  intros Hwf Hlen. apply not_true_iff_false. intros Hc.
+  apply (op_checker_iff i acts Hwf) in Hc as (_ & _ & H). lia.
 Qed.
